@@ -13,6 +13,7 @@
 //   drv_text --out F --mode table   --dim D --rand N
 //   drv_text --out F --mode dist    --rand N
 #include "drv_text_gen.h"
+#include "param_audit.h"
 
 #include <Bpp/App/ApplicationTools.h>
 #include <Bpp/Exceptions.h>
@@ -952,6 +953,7 @@ static void modeDist(int argc, char** argv, Rng& rng)
 // =============================================================== main
 int main(int argc, char** argv)
 {
+  vt::installParamAudit(); // C01: audit of every Parameter of the process when VERIF_PARAM_AUDIT=<file> is set
   std::string out = argStr(argc, argv, "--out", "");
   std::string mode = argStr(argc, argv, "--mode", "numbers");
   if (out.empty() || !tracer().open(out))
